@@ -151,7 +151,7 @@ def s4(ctx, rep):
 def s5(ctx, rep):
     P = ctx.P
     f = P.func("syne_tune.tuning_status.print_best_metric_found")
-    ifs = [s for s in f.node.body if isinstance(s, ast.If) and parity.mode_test(s.test) is not None]
+    ifs = [s for s in walk_shallow(f.node) if isinstance(s, ast.If) and parity.mode_test(s.test) is not None]
     ok = len(ifs) == 1
     if ok:
         m = parity.mode_test(ifs[0].test)
@@ -168,11 +168,11 @@ def s5(ctx, rep):
     rets = [U(r.value) for r in returns_of(f) if r.value is not None and U(r.value) != "None"]
     ok = ok and rets == ["(" + ", ".join(U(e) for e in best[0].targets[0].elts) + ")"] if best else False
     rep.put(ok, "S5", "agreement", "print_best_metric_found returns the first entry of the sorted list (trial id, value)", f, None, "")
-    dflt = [s for s in f.node.body if isinstance(s, ast.If) and ("is", "mode", "None", True) in atoms_of(s.test, True)]
+    dflt = [s for s in walk_shallow(f.node) if isinstance(s, ast.If) and ("is", "mode", "None", True) in atoms_of(s.test, True)]
     ok = len(dflt) == 1 and U(dflt[0].body[0]) == "mode = 'min'"
     rep.put(ok, "S5", "agreement", "print_best_metric_found: a missing mode means 'min'", f, None, "")
     e = P.method("ExperimentResult", "best_config")
-    ifs = [s for s in e.node.body if isinstance(s, ast.If) and parity.mode_test(s.test) is not None]
+    ifs = [s for s in walk_shallow(e.node) if isinstance(s, ast.If) and parity.mode_test(s.test) is not None]
     ok = len(ifs) == 1
     if ok:
         m = parity.mode_test(ifs[0].test)
